@@ -488,7 +488,7 @@ func checkC20(c *mc.Ctx) {
 		depth = 8
 	}
 	streams := c19Streams(c.Seed)
-	streams = append(streams, &Stream{Name: "big-payloads", Bytes: BigPayloadStream(c.Seed)}, MultiSectionStream(c.Seed))
+	streams = append(streams, &Stream{Name: "big-payloads", Bytes: BigPayloadStream(c.Seed)}, MultiSectionStream(c.Seed), NetworkPIDStream(c.Seed, 0x10), NetworkPIDStream(c.Seed, 0x50))
 	for _, st0 := range streams {
 		for _, cfg := range []struct {
 			auto bool
@@ -610,6 +610,26 @@ func checkC20(c *mc.Ctx) {
 	}
 	c20Undetectable(c)
 	c.Ev.Require("rewind-after-consumption", "rewind-with-skipper-or-parser", "rewind-after-failed-detection")
+}
+
+// NetworkPIDStream: the PAT announces the network PID under program_number 0 (the default 0x10, or a
+// private one), and that PID carries a section before the first PAT as well as after it (the PAT still
+// precedes the PMT): what a Demuxer learns from the PAT must not change how it treats, after a Rewind,
+// what came in front of it.
+func NetworkPIDStream(seed int64, netPID uint16) *Stream {
+	ccs := []uint8{1, 5, 9, 13}
+	nitA, nitB := modelNIT(1), modelNIT(2)
+	nitA.NetworkID, nitB.NetworkID = 0x1111, 0x2222
+	pat, pmt := modelPAT(0, netPID, 1, 0x1000), modelPMT(1, 0x100, 1)
+	lists := [][]*ref.Pkt{
+		append(Packetize(PSIUnit(netPID, 0, [][]byte{SecNIT(nitA, ref.SecHdr{CNI: true})}, nil), nil, &ccs[0], true), Packetize(PSIUnit(netPID, 0, [][]byte{SecNIT(nitB, ref.SecHdr{CNI: true, Version: 1})}, nil), nil, &ccs[0], true)...),
+		Packetize(PSIUnit(0, 0, [][]byte{SecPAT(pat, ref.SecHdr{CNI: true})}, nil), nil, &ccs[1], true),
+		Packetize(PSIUnit(0x1000, 0, [][]byte{SecPMT(pmt, ref.SecHdr{CNI: true})}, nil), nil, &ccs[2], true),
+		Packetize(PESUnit(0x100, 0xe0, pesPayload(71, 100, seed), 1, false), nil, &ccs[3], false),
+	}
+	// order: NIT-A, PAT, PMT, PES, NIT-B
+	order := []int{0, 1, 2, 3, 0}
+	return BuildStream(fmt.Sprintf("network-pid-%#x-before-pat", netPID), lists, order, nil)
 }
 
 // c20Demuxer builds the Demuxer of a C20 configuration (shared with the replayer). Options: a skipper
